@@ -108,6 +108,8 @@ structure Input where
   capRevocation : Bool               -- plugin declares SIGNATURE_VERIFIER.REVOCATION_CHECK
   trust : Trust
   identityMatch : Bool               -- outcome of the native trusted-identity check
+  wildcardIdentity : Bool            -- the statement trusts "*" (then identityMatch = true); how the native check
+                                     -- came to pass must not matter: the plugin is still asked what it owns
   expired : Bool
   timestampOk : Bool                 -- outcome of the authentic-timestamp validation
   revocation : Revocation            -- what the native validator would report
